@@ -221,3 +221,9 @@ def all_closing(bs):
 def strbody(p):
     """payload language of a back-quoted string: no unescaped back-quote, no lone trailing backslash"""
     return True if len(p) == 0 else ((len(p) >= 2 and strbody(p[2:])) if p[0] == "\\" else (p[0] != "`" and strbody(p[1:])))
+
+
+@W.spec([STR, STR], BOOL)
+def only_chars(v, a):
+    """every character of v is one of the characters of a (front recursion)"""
+    return True if len(v) == 0 else (v[0] in a and only_chars(v[1:], a))
